@@ -433,7 +433,8 @@ impl<'a> Exec<'a> {
                 let mut a = vec!["merge".to_string()];
                 a.extend(inputs.iter().map(|i| skf(i)));
                 a.push("-o".into());
-                a.push(out.clone());
+                // the output prefix may be given with or without the suffix
+                a.push(if (crate::util::fnv_str(out) ^ self.c.sim_seed) % 3 == 0 { skf(out) } else { out.clone() });
                 let r = self.run(a)?;
                 match expected {
                     Err(why) => {
@@ -482,7 +483,7 @@ impl<'a> Exec<'a> {
                 let mut a = vec!["delete".to_string(), "--skf-file".into(), skf(file)];
                 if let Some(o) = out {
                     a.push("-o".into());
-                    a.push(o.clone());
+                    a.push(if (crate::util::fnv_str(o) ^ self.c.sim_seed) % 3 == 0 { skf(o) } else { o.clone() });
                 }
                 if *via_file {
                     let l: String = names.iter().map(|n| format!("{n}\n")).collect();
@@ -1046,11 +1047,23 @@ impl StoreWorkload {
 
         match focus {
             "C07" => {
+                // sometimes one input is not freshly built but the result of a delete
+                if rng.chance(25) {
+                    let cand: Vec<String> = files.iter().filter(|(_, v)| v.len() >= 2).map(|(k, _)| k.clone()).collect();
+                    if let Some(f) = cand.first() {
+                        let names = files[f].clone();
+                        let gone = rng.pick(&names).clone();
+                        let out = newname("d");
+                        ops.push(Op::Delete { file: f.clone(), names: vec![gone.clone()], via_file: false, out: Some(out.clone()) });
+                        files.remove(f);
+                        files.insert(out, names.into_iter().filter(|x| *x != gone).collect());
+                    }
+                }
                 // a random merge tree over the parts, merged files merged again
                 let mut pool: Vec<String> = files.keys().cloned().collect();
                 rng.shuffle(&mut pool);
                 while pool.len() > 1 {
-                    let take = rng.range(2, pool.len().min(3));
+                    let take = rng.range(2, pool.len().min(4));
                     let ins: Vec<String> = pool.drain(..take).collect();
                     let out = newname("m");
                     let names: Vec<String> = ins.iter().flat_map(|f| files[f].clone()).collect();
@@ -1104,7 +1117,11 @@ impl StoreWorkload {
                     let mut del: Vec<String> = sub.iter().map(|i| names[*i].clone()).collect();
                     // names in any order, not only the file's column order
                     rng.shuffle(&mut del);
-                    let out = if rng.chance(50) { Some(newname("d")) } else { None };
+                    let out = match rng.below(10) {
+                        0..=4 => Some(newname("d")),
+                        5 => Some(cur.clone()), // -o naming the input itself
+                        _ => None,
+                    };
                     let target = out.clone().unwrap_or(cur.clone());
                     ops.push(Op::Delete { file: cur.clone(), names: del.clone(), via_file, out });
                     files.insert(target.clone(), names.into_iter().filter(|x| !del.contains(x)).collect());
